@@ -1,6 +1,7 @@
 import DoltVerif.Model.JournalIndex
 import DoltVerif.Lemmas.JournalLoss
 import DoltVerif.Props.C03
+import DoltVerif.Lemmas.JournalIndexView
 /-!
 C04 — The journal index file never changes what the database contains.
 
@@ -88,6 +89,67 @@ theorem unaccepted_index_harmless (B mx : Nat) (j data : Bytes) (cw : Bool) (saf
   unfold bootstrap
   simp only [h]
   cases recoverFrom B j 0 <;> simp [sameState]
+
+/-! ### accepted indexes: faithful ⇒ harmless, and the writer's index is faithful -/
+
+/-- the accepted part of an index describes the journal prefix `rs1`: it ends at the end of `rs1`
+and its lookups are the ranges a replay of `rs1` computes (addr16, payload offset, payload length) -/
+def RangesFaithful (rs1 : List Rec) (r : IdxOk) : Prop :=
+  r.indexed = (encAll rs1).length ∧ r.lookups = (rangesOf (placed rs1 0)).map toLookup
+
+/-- `C04_partial`: a journal whose prefix `rs1` is well-formed, followed by ANY bytes `g` (more records,
+a torn tail, garbage), bootstrapped with an index whose accepted part is faithful to `rs1`, gives
+the same outcome as the index-free bootstrap: same error class, same root, and the same bytes for
+every address that no stored address aliases on its first 16 bytes.  (`hroot`: the replayed part
+holds a root record — what `acceptBatch`'s `peekRoot` at the batch end checks.) -/
+theorem C04_partial (B mx : Nat) (rs1 : List Rec) (g idx : Bytes) (cw : Bool) (r : IdxOk)
+    (hfit : AllFit B rs1) (hidx : readIndex (encAll rs1 ++ g) idx = .ok r) (hf : RangesFaithful rs1 r)
+    (hroot : ∀ recs2 off, recoverFrom B (encAll rs1 ++ g) (encAll rs1).length = .ok recs2 off → (lastRoot recs2).isSome) :
+    match bootstrap B mx (encAll rs1 ++ g) (some idx) cw, bootstrap B mx (encAll rs1 ++ g) none cw with
+    | .ok b1, .ok b2 => b1.root = b2.root ∧
+        ∀ a, NoAlias (rangesOf (placed rs1 0)) a → b1.read (encAll rs1 ++ g) a = b2.read (encAll rs1 ++ g) a
+    | .dataLoss o1, .dataLoss o2 => o1 = o2
+    | .fatal e1, .fatal e2 => e1 = e2
+    | _, _ => False := by
+  obtain ⟨hi, hl⟩ := hf
+  unfold bootstrap
+  simp only [hidx, hi]
+  rcases recoverFrom_boundary B rs1 g hfit with ⟨recs2, off, h0, hL⟩ | ⟨off, h0, hL⟩ | ⟨e, h0, hL⟩
+  · have hr := hroot recs2 off hL
+    simp only [h0, hL]
+    constructor
+    · rw [lastRoot_append]
+      cases hlr : lastRoot recs2 with
+      | none => rw [hlr] at hr; cases hr
+      | some v => rfl
+    · intro a ha
+      simp only [Boot.read, Boot.get, rangesOf_append, lookupRange_append, hl]
+      cases hn : lookupRange (rangesOf recs2) a with
+      | some e => rfl
+      | none =>
+        simp only []
+        have := cachedGet_faithful (rangesOf (placed rs1 0)) a ha
+        unfold cachedGet at this
+        rw [this]
+        cases lookupRange (rangesOf (placed rs1 0)) a <;> rfl
+  · simp only [h0, hL]
+  · simp only [h0, hL]
+
+/-- `index_written_by_writer_faithful`: for every sequence of writer operations on a fresh journal, the
+lookups handed to the index writer are, in order, exactly the ranges a replay of the records
+written computes.  Since this holds for every operation sequence it holds for every prefix of one,
+i.e. for the index as it stood at any earlier flush (stale index) or cut at any batch boundary. -/
+theorem index_written_by_writer_faithful (s0 : WState) (ops : List Op)
+    (hb : s0.buf = []) (ho : s0.off = 0) (hlog : s0.log = []) (hops : ∀ op ∈ ops, OpFits op) :
+    lookupsOf (run s0 ops).2 = (rangesOf (placed (run s0 ops).1.log 0)).map toLookup := by
+  obtain ⟨nl, h1, _, h3⟩ := run_facts ops hops s0
+  have hoff : s0.offset = 0 := by simp [WState.offset, hb, ho]
+  rw [h1, hlog, List.nil_append, h3, hoff]
+
+example : OpFits (.chunk (zeros 20) [1, 2, 3]) ∧ OpFits (.commit (zeros 20)) := by
+  constructor
+  · simp [OpFits, chunkRecSz, chunkPayloadOff, lenSz, addrSz, checksumSz]
+  · trivial
 
 /-! ### the full statement is false: a machine-checked witness -/
 
